@@ -183,6 +183,33 @@ def cases(seed, tier):
                 c["script"][0]["inject"] = [{"id": "p", "at": {"msg": 3, "plus": rng.choice([1, 2])}, "do": "pause"}]
                 c["script"][0]["decisions"] = [{"do": rng.choice(["stop", "abort"])}]
             yield c
+    # a 'wait' that watches a second group: a status of the watched group fails, the plan handles the FailedStatus at
+    # that wait and goes on; a later wait watches the same group again (the failed status is still in it).  Whatever
+    # the engine makes of the old failure, what reaches the plan is a failure (or nothing), never a bare cancellation
+    # that ends the call as an abort nobody asked for
+    if pg.motors and pg.dets:
+        m, d = pg.motors[0], pg.dets[0]
+        for j in range(2):
+            g, w, g2 = pg.group(), pg.group(), pg.group()
+            first = {"op": "try", "site": S(), "body": [msg(S, "wait", None, group=g, watch=[w])], "handlers": [{"exc": "FailedStatus", "body": [msg(S, "null")], "reraise": False}]}
+            second = msg(S, "wait", None, group=g2, watch=[w])
+            if rng.random() < 0.5:
+                second = {"op": "try", "site": S(), "body": [second], "handlers": [{"exc": rng.choice(["FailedStatus", "Exception"]), "body": [msg(S, "null")], "reraise": rng.random() < 0.3}]}
+            plan = [msg(S, "open_run"), msg(S, "checkpoint"), msg(S, "set", m, 3.0, group=g), msg(S, "trigger", d, group=w), first, msg(S, "null")]
+            if rng.random() < 0.5:
+                plan.append(msg(S, "checkpoint"))
+            plan += [msg(S, "set", m, 5.0, group=g2), second, msg(S, "null"), msg(S, "close_run")]
+            c = copy.deepcopy(case)
+            c["variant"] = f"watched-group-failed-{j}"
+            c["script"][0]["plan"] = plan
+            for dev in c["devices"].values():
+                dev.pop("faults", None)
+            c["devices"][m]["velocity"] = 2.0
+            c["devices"][d]["faults"] = {"trigger#0": {"kind": "status_fail", "exc": "RuntimeError", "delay": rng.choice([0.0, 0.1])}}
+            if rng.random() < 0.4:
+                c["script"][0]["inject"] = [{"id": "p", "at": {"msg": rng.choice([6, 7, 8]), "plus": rng.choice([0, 1, 2])}, "do": "pause"}]
+                c["script"][0]["decisions"] = [{"do": "resume"}]
+            yield c
     # the messages that address several objects at once ('locate' a, b ...): one of the devices fails, synchronously
     # or after really awaiting; the error belongs to that yield like any other
     if len(pg.motors) >= 1:
@@ -236,6 +263,17 @@ def check(res):
                     exc=x.d["exc"],
                 )
             )
+        return out
+    if str(res.case.get("variant", "")).startswith("watched-group-failed"):
+        res.notes["watched_group_failed"] = 1
+        last = inv.calls[-1]
+        bare = [e for e in plan if e.d["what"] == "thrown" and e.d["exc"] == "CancelledError"]
+        if bare:
+            out.append(V("bare-cancellation-thrown-at-plan", f"no stop / abort / halt was requested, yet CancelledError was thrown into the plan at site {bare[0].d['site']} (a wait watching a group with an already reported failure); the call ended {last.outcome}/{last.exc}", site=bare[0].d["site"]))
+            return out
+        plan_done = any(e.d["what"] == "plan_done" for e in plan)
+        if str(last.state) == "idle" and last.outcome == "return" and not plan_done:
+            out.append(V("call-returned-but-plan-did-not-finish", f"RE(...) returned normally although the plan never ran to its end (last plan event {plan[-1].d if plan else None})"))
         return out
     faults = [e for e in evs if e.kind == "dev" and e.d.get("fault")]
     if len(faults) != 1:
